@@ -1,7 +1,7 @@
 (* SI/Props.v — theorems of property C01 (snapshot isolation and external consistency), over the MVCC store
    model Mvcc/Model.v ([step], [run]) for ALL command sequences obeying the timestamp discipline [oracle_ts]
    (Mvcc/Spec.v), plus an abstract event order for external consistency. Definitions: SI/Model.v. *)
-From Verif Require Import SI.Model SI.ProofsTrans SI.ProofsRead SI.ProofsWW SI.ProofsIns SI.ProofsExt SI.ProofsOracle.
+From Verif Require Import SI.Model SI.ProofsTrans SI.ProofsRead SI.ProofsWW SI.ProofsIns SI.ProofsInsPoint SI.ProofsExt SI.ProofsOracle.
 
 (* ---- 1. reads are a function of the committed history restricted to commit ts <= read ts *)
 (* a point get on any reachable store answers either the history read at its read ts (at [eff_ts], which is the
@@ -71,6 +71,15 @@ Theorem C01_insert_semantics :
 Proof. exact insert_semantics. Qed.
 Print Assumptions C01_insert_semantics.
 
+(* a committed optimistic insert: in every reachable store the key has no value just below the insert's commit ts
+   (the history oracle's insert clause, evaluated on the final history) *)
+Theorem C01_insert_commit_point : forall cmds k s,
+  oracle_ts cmds = true -> ww_discipline cmds = true -> ins_discipline cmds k s = true ->
+  forall w, In w (writes_of (run cmds) k) -> w_start w = s -> w_kind w = WPut ->
+    hist_read (history (run cmds) k) (w_commit w - 1) = None.
+Proof. exact insert_commit_point. Qed.
+Print Assumptions C01_insert_commit_point.
+
 (* ---- 4. external consistency: oracle strictly increasing, start ts fetched inside Begin, acknowledged commit
    ts at most d above a timestamp issued before the acknowledgement (d = 0: 2PC, d = 1: async commit / 1PC),
    every Begin call of y after the acknowledgement of x: then commit(x) < start(y) + d *)
@@ -116,6 +125,9 @@ Proof. vm_compute. repeat split. Qed.
 Example ex_insert : snd (step (run (firstn 8 ex_cmds)) (nth 8 ex_cmds (GC 0 0 0))) = RErrs [None]
   /\ step (run (firstn 10 ex_cmds)) (nth 10 ex_cmds (GC 0 0 0)) = (run (firstn 10 ex_cmds), RErrs [Some (EAlreadyExist 1)]).
 Proof. vm_compute. split; reflexivity. Qed.
+Example ex_insert_point : ins_discipline ex_cmds 2 (T 10) = true
+  /\ writes_of (run ex_cmds) 2 = [mkWrite WPut (T 10) (T 11) 44] /\ hist_read (history (run ex_cmds) 2) (T 11 - 1) = None.
+Proof. vm_compute. repeat split. Qed.
 Definition ex_obs : list read_obs :=
   [ mkObs (T 5) 1 None (Some 17); mkObs (T 9) 1 None (Some 33); mkObs (T 2) 1 None None; mkObs (T 9) 1 (Some None) None;
     mkObs (T 12) 2 None (Some 44) ].
